@@ -347,3 +347,73 @@ fn drd_total_gates_short() {
     assert!(r.is_err());
     core::mem::forget(r);
 }
+
+// ---- quick routing checks: a message that is concrete except for ONE marker byte inside the block ------------
+// (cheap: CBMC constant-propagates the rest; the fully/partly symbolic variants above are thorough-tier)
+
+/// one generic block named `name` with 1 gate x 8 bit; marker = first byte of the block's `reserved` field and the
+/// gate byte: the block must surface in slot `which` (and only there) carrying both markers
+fn route_marker(name: &[u8; 3], which: usize) {
+    let mut bytes = [0u8; 36 + 28 + 1];
+    one_block(&mut bytes, name);
+    bytes[36 + 9] = 1; // 1 gate
+    bytes[36 + 19] = 8; // 8-bit words
+    let marker: u8 = kani::any();
+    bytes[36 + 4] = marker;
+    bytes[64] = marker;
+    let mut c = SliceReader { buf: &bytes[..], pos: 0 };
+    let m = decode_digital_radar_data(&mut c).unwrap();
+    others_absent(&m, which);
+    let blk = match which {
+        3 => m.reflectivity_data_block.as_ref(),
+        4 => m.velocity_data_block.as_ref(),
+        5 => m.spectrum_width_data_block.as_ref(),
+        6 => m.differential_reflectivity_data_block.as_ref(),
+        7 => m.differential_phase_data_block.as_ref(),
+        8 => m.correlation_coefficient_data_block.as_ref(),
+        _ => m.specific_diff_phase_data_block.as_ref(),
+    }
+    .unwrap();
+    assert!(blk.header.reserved == (marker as u32) << 24);
+    assert!(blk.encoded_data.len() == 1 && blk.encoded_data[0] == marker);
+    assert!(c.pos == 65);
+    core::mem::forget(m);
+}
+
+#[kani::proof]
+#[kani::unwind(6)]
+fn drd_marker_ref() { route_marker(b"REF", 3); }
+#[kani::proof]
+#[kani::unwind(6)]
+fn drd_marker_vel() { route_marker(b"VEL", 4); }
+#[kani::proof]
+#[kani::unwind(6)]
+fn drd_marker_sw() { route_marker(b"SW ", 5); }
+#[kani::proof]
+#[kani::unwind(6)]
+fn drd_marker_zdr() { route_marker(b"ZDR", 6); }
+#[kani::proof]
+#[kani::unwind(6)]
+fn drd_marker_phi() { route_marker(b"PHI", 7); }
+#[kani::proof]
+#[kani::unwind(6)]
+fn drd_marker_rho() { route_marker(b"RHO", 8); }
+#[kani::proof]
+#[kani::unwind(6)]
+fn drd_marker_cfp() { route_marker(b"CFP", 9); }
+
+/// VOL block, concrete except a marker in the VCP number field
+#[kani::proof]
+#[kani::unwind(6)]
+fn drd_marker_vol() {
+    let mut bytes = [0u8; 36 + 52];
+    one_block(&mut bytes, b"VOL");
+    let marker: u8 = kani::any();
+    bytes[36 + 41] = marker;
+    let mut c = SliceReader { buf: &bytes[..], pos: 0 };
+    let m = decode_digital_radar_data(&mut c).unwrap();
+    others_absent(&m, 0);
+    assert!(m.volume_data_block.as_ref().unwrap().volume_coverage_pattern_number == marker as u16);
+    assert!(c.pos == 36 + 52);
+    core::mem::forget(m);
+}
